@@ -504,16 +504,21 @@ func (b *builder) buildC03() {
 	}
 	limitStream(&c)
 	s := c.Stream()
-	if len(s) > 1500 {
-		c.Raw = s[:1500]
-		c.Msgs = nil
-		s = c.Raw
-	}
-	b.sc.Conns = append(b.sc.Conns, c)
 	mode := schedTrickle
 	if b.r.Chance(1, 5) {
 		mode = schedDenseEnd
 	}
+	if len(s) > 1500 {
+		if b.r.Chance(1, 2) {
+			// long streams (very long header lines, big bodies): segment-sized deliveries
+			mode = b.r.PickInt(schedLink, schedLink, schedAdv)
+		} else {
+			c.Raw = s[:1500]
+			c.Msgs = nil
+			s = c.Raw
+		}
+	}
+	b.sc.Conns = append(b.sc.Conns, c)
 	b.schedule([]connPlan{{conn: 0, cuts: b.cuts(s, mode), end: endNone}})
 	for _, f := range baseForks {
 		b.sc.Forks = append(b.sc.Forks, gen.HexBytes(f))
@@ -660,10 +665,7 @@ func (b *builder) buildC12() {
 	}
 	var cfg sut.Cfg
 	if kind == "msg" {
-		cfg = b.msgCfg()
-		if cfg.HdrCap == -2 {
-			cfg.HdrCap = -1
-		}
+		cfg = b.msgCfg() // (includes the zero-value object that is never Init()ed: hdr_cap -2)
 	} else {
 		cfg = b.subCfg(kind)
 	}
@@ -699,7 +701,7 @@ func (b *builder) buildC12() {
 		}
 		c.Obj = 0
 		c.ResetBy = resetBy
-		if resetBy == sut.ByInit && i > 0 && b.r.Chance(1, 2) {
+		if resetBy == sut.ByInit && i > 0 && cfg.HdrCap != -2 && b.r.Chance(1, 2) {
 			// the init operation may hand the object other arrays (or none) than it had before
 			c.Cfg.HdrCap = b.capKnob(24)
 			c.Cfg.ConCap = b.capKnob(6)
